@@ -6,5 +6,5 @@ CONSTANTS
   MaxOps = 5
   Deviations = {"token_fold32"}
 VIEW view
-INVARIANTS InterestExact NoViolation
+INVARIANTS InterestExact NoViolation TokenOfWaiter
 CHECK_DEADLOCK FALSE
